@@ -128,7 +128,15 @@ def gen_lp(g: gen.Gen, r, kind):
     n = x.size
     arrays = []
     def arr(m):
-        a = np.array([float(r.choice([1, 2, -1, 3, 0.5, -2.5])) + 0.25 * j for j in range(m)])
+        k_ = r.random()
+        if k_ < 0.7:
+            a = np.array([float(r.choice([1, 2, -1, 3, 0.5, -2.5])) + 0.25 * j for j in range(m)])
+        elif k_ < 0.82:
+            a = np.array([r.choice([1, 2, -1, 3, -2]) + j for j in range(m)], dtype=r.choice([np.int64, np.int32]))
+        elif k_ < 0.94:
+            a = np.array([r.choice([1, 2, 3, 5]) + j for j in range(m)], dtype=r.choice([np.uint8, np.uint16, np.uint32]))   # unsigned: -a wraps
+        else:
+            a = np.array([float(r.choice([1, 2, -1, 3])) + 0.5 * j for j in range(m)])[::-1]
         arrays.append((a, a.copy()))
         return a
     style = r.randrange(6)
@@ -147,6 +155,12 @@ def gen_lp(g: gen.Gen, r, kind):
     else:
         w = x[::-1]
         obj = w @ arr(n) - 2 + ex()
+    if r.random() < 0.3:
+        # a weighted sum over a vector EXPRESSION, sitting where the enclosing expression scales or negates it
+        y2 = g.pool.vectors[-1]
+        wexp = (x - 1) if y2 is x or y2.size != n else (x + y2)
+        obj = r.choice([lambda: obj - arr(n) @ wexp, lambda: 0.5 * (arr(n) @ wexp) + obj, lambda: -(arr(n) @ wexp) + 2 * obj,
+                        lambda: 12 - arr(n) @ wexp + obj])()
     mx = r.random() < 0.5
     P = Problem()
     ref = RefLP()
@@ -162,7 +176,8 @@ def gen_lp(g: gen.Gen, r, kind):
         add(x.sum() + ex() <= 6)
         w = r.choice(vec_views(x, r))
         cw = arr(w.size)
-        add(r.choice([lambda: cw @ w <= 7.5, lambda: cw @ w >= -9.25, lambda: (w @ cw) >= -8, lambda: cw @ w + 1 <= 9]) ())
+        add(r.choice([lambda: cw @ w <= 7.5, lambda: cw @ w >= -9.25, lambda: (w @ cw) >= -8, lambda: cw @ w + 1 <= 9,
+                      lambda: 12 - cw @ (w + 1) <= 40, lambda: 30 - 2 * (cw @ (w - 1)) >= 0]) ())
         if kind == "degenerate":
             add(x.sum() + ex() <= 6)          # duplicated row
             add((x[0] + ex()).eq(2))
